@@ -210,28 +210,94 @@ def gen_pw(tier, rng):
             truth_vals += vs
             batches.append("%s/%s/%d" % (vals_text(vs), dtxt, nv))
         nostats = rng.random() < 0.06
+        final_on = True
+        if not nostats and rng.random() < 0.3:
+            # the statistics option toggled between the add_values calls of ONE page: whatever is emitted at finalize must
+            # bound the values of the batches added while it was off too (the extremes go there)
+            ext = {INT32: [i32(-2**31), i32(2**31 - 1)], INT64: [i64(-2**63), i64(2**63 - 1)],
+                   FLOAT: [f32b(0xFF800000), f32b(0x7F800000)], DOUBLE: [f64b(0xFFF0000000000000), f64b(0x7FF0000000000000)]}[t]
+            items, on = [], True
+            for b_ in batches:
+                if rng.random() < 0.6:
+                    on = not on
+                    items.append("s1" if on else "s0")
+                if not on and b_.split("/")[1] == "-" and rng.random() < 0.8:       # an untracked batch gets an extreme value
+                    vs_, _d, nv_ = b_.split("/")
+                    e_ = rng.choice(ext)
+                    b_ = "%s.%s/-/%d" % (vs_, e_.hex(), int(nv_) + 1) if vs_ != "-" else "%s/-/%d" % (e_.hex(), int(nv_) + 1)
+                    truth_vals.append(e_)
+                items.append(b_)
+            if rng.random() < 0.7 and not on:
+                items.append("s1")
+                on = True
+            final_on = on
+            batches = items
         out.append(("pw %d %d %s%s" % (t, maxdef, ",".join(batches), " nostats" if nostats else ""),
-                    {"kind": "pw", "type": t, "vals": [v.hex() for v in truth_vals], "nulls": nulls, "nostats": nostats}))
+                    {"kind": "pw", "type": t, "vals": [v.hex() for v in truth_vals], "nulls": nulls, "nostats": nostats or not final_on}))
     return out
 
 
-def footer_with_stats(t, flba_len, rgs):
-    """rgs: list of dict(meta, stats, nv, nc, mn, mx, omn, omx) -> file bytes"""
-    els = [pq.schema_element(name="schema", num_children=1),
-           pq.schema_element(name="c", type=t, repetition=pq.OPTIONAL, type_length=flba_len if t == FLBA else None)]
+def random_shape(rng):
+    """where the column sits in the schema: leaves of other types before / after it, the column itself under 0..3 groups"""
+    r = rng.random()
+    if r < 0.45:
+        return None                                       # flat, single column
+    others = [INT32, INT64, FLOAT, DOUBLE, BYTE_ARRAY, BOOLEAN]
+    return dict(before=[rng.choice(others) for _ in range(rng.choice([0, 0, 1, 2]))], before_in_group=rng.random() < 0.5,
+                depth=rng.choice([1, 1, 2, 3]) if r < 0.9 else 0, after=[rng.choice(others) for _ in range(rng.choice([0, 1]))])
+
+
+def footer_with_stats(t, flba_len, rgs, shape=None, order=None, rng=None):
+    """rgs: list of dict(meta, stats, nv, nc, mn, mx, omn, omx) -> (file bytes, type token for the case line, column index).
+    With a shape the column is a leaf of a NESTED schema (groups before it, other leaves before / after)."""
+    leaf = pq.schema_element(name="c", type=t, repetition=pq.OPTIONAL, type_length=flba_len if t == FLBA else None)
+    if shape is None:
+        els, types, tcol, paths = [pq.schema_element(name="schema", num_children=1), leaf], [t], 0, [["c"]]
+    else:
+        top, els, types, paths = 0, [], [], []
+        if shape["before"]:
+            bl = [pq.schema_element(name="b%d" % i, type=bt, repetition=pq.REQUIRED) for i, bt in enumerate(shape["before"])]
+            if shape["before_in_group"]:
+                els += [pq.schema_element(name="gb", repetition=pq.OPTIONAL, num_children=len(bl))] + bl
+                top += 1
+                paths += [["gb", "b%d" % i] for i in range(len(bl))]
+            else:
+                els += bl
+                top += len(bl)
+                paths += [["b%d" % i] for i in range(len(bl))]
+            types += shape["before"]
+        tcol = len(types)
+        chain = ["g%d" % i for i in range(shape["depth"])]
+        els += [pq.schema_element(name=nm, repetition=rng.choice([pq.OPTIONAL, pq.REPEATED, pq.REQUIRED]) if rng else pq.OPTIONAL,
+                                  num_children=1) for nm in chain] + [leaf]
+        top += 1
+        types.append(t)
+        paths.append(chain + ["c"])
+        for i, at in enumerate(shape["after"]):
+            els.append(pq.schema_element(name="a%d" % i, type=at, repetition=pq.REQUIRED))
+            top += 1
+            types.append(at)
+            paths.append(["a%d" % i])
+        els = [pq.schema_element(name="schema", num_children=top)] + els
+    els = [pq.permute(e, order, rng) for e in els]
     groups = []
     for g in rgs:
         st = None
         if g["stats"]:
-            st = pq.statistics(max_old=g["omx"], min_old=g["omn"], null_count=g["nc"], max_value=g["mx"], min_value=g["mn"],
-                               distinct_count=g.get("dc"), is_max_exact=g.get("xmax"), is_min_exact=g.get("xmin"),
-                               unknown_field=g.get("unk", False))
-        if g["meta"]:
-            ch = pq.column_chunk(t, ["c"], g["nv"], stats=st)
-        else:
-            ch = [(2, pq.T_I64, 4)]          # a ColumnChunk without meta_data
-        groups.append(pq.row_group([ch], g["nv"]))
-    return pq.parquet_file(pq.file_metadata(els, sum(g["nv"] for g in rgs), groups))
+            st = pq.permute(pq.statistics(max_old=g["omx"], min_old=g["omn"], null_count=g["nc"], max_value=g["mx"], min_value=g["mn"],
+                                          distinct_count=g.get("dc"), is_max_exact=g.get("xmax"), is_min_exact=g.get("xmin"),
+                                          unknown_field=g.get("unk", False)), order, rng)
+        chunks = []
+        for i, ty in enumerate(types):
+            if i != tcol:
+                chunks.append(pq.column_chunk(ty, paths[i], g["nv"]))
+            elif g["meta"]:
+                chunks.append(pq.column_chunk(t, paths[i], g["nv"], stats=st))
+            else:
+                chunks.append([(2, pq.T_I64, 4)])          # a ColumnChunk without meta_data
+        groups.append(pq.row_group(chunks, g["nv"]))
+    ttok = str(t) if shape is None else "%s:%d" % (".".join(map(str, types)), tcol)
+    return pq.parquet_file(pq.file_metadata(els, sum(g["nv"] for g in rgs), groups)), ttok, tcol
 
 
 def gen_rd(tier, rng):
@@ -288,7 +354,8 @@ def gen_rd(tier, rng):
                 g.update(dc=rng.choice([0, 1, 7, 2**40]) if rng.random() < 0.7 else None, xmax=rng.choice([None, True, False]),
                          xmin=rng.choice([None, True, False]), unk=rng.random() < 0.5)
             rgs.append(g); datas.append(data); allv += data
-        file_hex = footer_with_stats(t, flen, rgs).hex()
+        fbytes, ttok, tcol = footer_with_stats(t, flen, rgs, random_shape(rng), rng.choice(pq.ORDERS) if rng.random() < 0.25 else None, rng)
+        file_hex = fbytes.hex()
         s_txt = ";".join("%d/%d/%d/%s/%s/%s/%s/%s" % (g["meta"], g["stats"], g["nv"], "-" if g["nc"] is None else g["nc"],
                                                       hx(g["mn"]), hx(g["mx"]), hx(g["omn"]), hx(g["omx"])) for g in rgs)
         d_txt = ";".join(vals_text(d) for d in datas)
@@ -303,9 +370,10 @@ def gen_rd(tier, rng):
             op = rng.randrange(6) if rng.random() < 0.97 else rng.choice([6, -1, 100])
             if degenerate and rng.random() < 0.5:
                 op = NE
-            col = 0 if rng.random() < 0.96 else rng.choice([-1, 1, 2])
+            ncols = ttok.count(".") + 1
+            col = tcol if rng.random() < 0.96 else rng.choice([-1, ncols, ncols + 1])
             maxidx = rng.choice([nrg, nrg, nrg + 1, 1, 2, max(1, nrg - 1), 0, -1])
-            line = "rd %s %d %d %d %s %d %s %s" % (file_hex, t, col, op, hx(p), maxidx, s_txt, d_txt)
+            line = "rd %s %s %d %d %s %d %s %s" % (file_hex, ttok, col, op, hx(p), maxidx, s_txt, d_txt)
             exp = []
             for g in rgs:
                 if not g["meta"]:
@@ -318,7 +386,7 @@ def gen_rd(tier, rng):
                     if g["mn"] and g["mx"]: pair = (g["mn"], g["mx"])
                     elif g["omn"] and g["omx"]: pair = (g["omn"], g["omx"])
                 exp.append("%d:%d:%d:%d:%s:%s" % (1 if pair else 0, hn, nc, g["nv"], pair[0].hex() if pair else "-", pair[1].hex() if pair else "-"))
-            out.append((line, {"kind": "rd", "tb": [g["tb"] for g in rgs], "nrg": nrg, "cs": exp,
+            out.append((line, {"kind": "rd", "tcol": tcol, "tb": [g["tb"] for g in rgs], "nrg": nrg, "cs": exp,
                                "dc": ["-" if not (g["meta"] and g["stats"]) or g.get("dc") is None else str(g["dc"]) for g in rgs],
                                "absent": [e.startswith("0:") for e in exp]}))
     return out
@@ -334,6 +402,8 @@ def gen_rd_long(tier, rng):
         L = 70000 if huge else rng.choice([250, 255, 256, 257, 258, 300, 513])
         t = BYTE_ARRAY if huge or rng.random() < 0.75 else FLBA
         prefix = bytes(rng.choice([0x61, 0x7A, 0x80, 0xFF, 0x00, rng.getrandbits(8)]) for _ in range(8)) * (L // 8 + 1)
+        if rng.random() < 0.35:
+            prefix = bytes([rng.choice([0xFF, 0xFF, 0x00])]) * (L + 8)       # all-0xFF / all-0x00 prefixes: the hard cases of any truncation
         shared = rng.choice([L - 1, L - 1, 256, 255, 257, L - 20]) if L > 257 else L - 1
         shared = max(1, min(shared, L - 1))
 
@@ -358,7 +428,9 @@ def gen_rd_long(tier, rng):
                 g.update(omn=mn, omx=mx)
             rgs.append(g); datas.append(data); allv += data
         flen = L if t == FLBA else 0
-        file_hex = footer_with_stats(t, flen, rgs).hex()
+        fbytes, ttok, tcol = footer_with_stats(t, flen, rgs, random_shape(rng) if rng.random() < 0.5 else None,
+                                               rng.choice(pq.ORDERS) if rng.random() < 0.25 else None, rng)
+        file_hex = fbytes.hex()
         s_txt = ";".join("%d/%d/%d/%s/%s/%s/%s/%s" % (g["meta"], g["stats"], g["nv"], "-" if g["nc"] is None else g["nc"],
                                                       hx(g["mn"]), hx(g["mx"]), hx(g["omn"]), hx(g["omx"])) for g in rgs)
         d_txt = ";".join(vals_text(d) for d in datas)
@@ -377,8 +449,8 @@ def gen_rd_long(tier, rng):
                 exp.append("%d:%d:%d:%d:%s:%s" % (1 if pair else 0, 1 if g["nc"] is not None else 0, 0, g["nv"],
                                                    pair[0].hex() if pair else "-", pair[1].hex() if pair else "-"))
             for op in ([EQ, GT, GE] if not huge else [rng.choice([EQ, GT, GE])]) + [rng.randrange(6)]:
-                out.append(("rd %s %d 0 %d %s %d %s %s" % (file_hex, t, op, hx(p_), nrg, s_txt, d_txt),
-                            {"kind": "rd", "tb": [g["tb"] for g in rgs], "nrg": nrg, "cs": exp, "absent": [e.startswith("0:") for e in exp]}))
+                out.append(("rd %s %s %d %d %s %d %s %s" % (file_hex, ttok, tcol, op, hx(p_), nrg, s_txt, d_txt),
+                            {"kind": "rd", "tcol": tcol, "tb": [g["tb"] for g in rgs], "nrg": nrg, "cs": exp, "absent": [e.startswith("0:") for e in exp]}))
     return out
 
 
@@ -399,6 +471,8 @@ def page_batches(t, rng, flen, maxdef, pool):
         if t == BYTE_ARRAY:
             vs = [v[:40] for v in vs]
         vals += vs
+        if rng.random() < 0.2:
+            batches.append(rng.choice(["s0", "s0", "s1"]))      # statistics option toggled between add_values calls / across pages
         batches.append("%s/%s/%d" % (vals_text(vs), dtxt, nv))
     return ",".join(batches), vals, nulls
 
@@ -507,6 +581,30 @@ def gen_pmh(tier, rng):
                     else:
                         qs.append("%s/%s" % (hx(a), hx(b)))
                 out.append(("pmh %d %s %s" % (t, ";".join(pages), ";".join(qs)), {"kind": "pmh", "pages": n, "initial_capacity": c0}))
+    return out
+
+
+def gen_pm_prefix(tier, rng):
+    """BYTE_ARRAY / FLBA page bounds longer than any plausible truncation length (32, 64, 128, 256) that START with k >= that
+    many 0xFF bytes (a truncated max cannot be incremented there), 0x00-prefixed and all-equal-prefix families for the min side;
+    every page probed with point and lower-bounded queries at its own values"""
+    out = []
+    tails = [b"", b"\x00", b"a", b"\xff", b"\xff\xfe", b"\x01\x02\x03"]
+    for L in (32, 64, 128, 256):
+        for k in (L - 1, L, L + 1, L + 7, 2 * L):
+            for fill in (0xFF, 0x00, 0x61):
+                vals = [bytes([fill]) * k + t_ for t_ in tails]
+                if tier == "quick":
+                    vals = rng.sample(vals, 4)
+                pages, qs = [], []
+                for v in vals:
+                    other = bytes([fill]) * k + rng.choice(tails)
+                    data = [v, other]
+                    mn, mx = bounds(BYTE_ARRAY, data)
+                    pages.append("0/%s/%s/0/%s" % (hx(mn), hx(mx), vals_text(data)))
+                    qs += ["%s/%s" % (hx(v), hx(v)), "%s/N" % hx(mx), "N/%s" % hx(mn)]
+                rng.shuffle(qs)
+                out.append(("pmh %d %s %s" % (BYTE_ARRAY, ";".join(pages), ";".join(qs[:8])), {"kind": "pmh", "pages": len(pages)}))
     return out
 
 
@@ -804,6 +902,13 @@ def check_column_index(line, ser):
     want = {1: [p[3] == "1" for p in pages], 2: [b(p[1]) for p in pages], 3: [b(p[2]) for p in pages],
             4: len(pages) % 3, 5: [int(p[0]) for p in pages]}
     out = []
+    t = int(line.split()[1])
+    if t in (BYTE_ARRAY, FLBA):
+        # a serialised byte-array bound may be a shortened one as long as it still bounds (min <= added min, max >= added max)
+        for fid, ok in ((2, lambda g, w_: g <= w_), (3, lambda g, w_: g >= w_)):
+            g_ = d.get(fid)
+            if isinstance(g_, list) and len(g_) == len(want[fid]) and all((w_ == b"" and x == b"") or (w_ != b"" and x != b"" and ok(x, w_)) for x, w_ in zip(g_, want[fid])):
+                want[fid] = g_
     for fid, name in ((1, "null_pages"), (2, "min_values"), (3, "max_values"), (4, "boundary_order"), (5, "null_counts")):
         if d.get(fid) != want[fid]:
             got, w = d.get(fid), want[fid]
@@ -918,7 +1023,7 @@ def judge(line, meta, impl, model):
         import re as _re
         mdc = _re.search(r" dc=(\S+)", body)
         body = _re.sub(r" dc=\S+", "", body)
-        if mdc and "dc" in meta and int(line.split()[3]) == 0 and mdc.group(1).split(";") != meta["dc"]:
+        if mdc and "dc" in meta and int(line.split()[3]) == meta.get("tcol", 0) and mdc.group(1).split(";") != meta["dc"]:
             out.append(("violation", "carquet_reader_column_statistics distinct_count %s, the file states %s" % (mdc.group(1), ";".join(meta["dc"]))))
         if model != body and not model.startswith("FAULT"):
             a, b = kv(body), kv(model)
@@ -928,11 +1033,11 @@ def judge(line, meta, impl, model):
         a = kv(body)
         toks = line.split()
         col, op, maxidx = int(toks[3]), int(toks[4]), int(toks[6])
-        if col == 0 and a["cs"].split(";") != meta["cs"]:
+        if col == meta.get("tcol", 0) and a["cs"].split(";") != meta["cs"]:
             out.append(("violation", "carquet_reader_column_statistics returns %s, the file states %s" % (a["cs"][:200], ";".join(meta["cs"])[:200])))
         ms = [] if a["m"] == "-" else [x.split(":") for x in a["m"].split(";")]
         might = [True if m[0] != "0" else m[1] == "1" for m in ms]
-        if col == 0 and 0 <= op <= 5:
+        if col == meta.get("tcol", 0) and 0 <= op <= 5:
             for i, m in enumerate(ms):
                 if meta["absent"][i] and might[i] is False:
                     out.append(("violation", "row group %d has no usable statistics but row_group_matches says no match" % i))
@@ -1050,7 +1155,8 @@ def run(tier):
             run_cases(rep, drv, run_, cc, "corpus", dist)
     for name, gen in (("builder", gen_bld), ("page_writer", gen_pw), ("reader", gen_rd), ("reader_long_stats", gen_rd_long),
                       ("helpers", gen_helpers), ("page_index_from_pages", gen_pmw), ("page_index_histories", gen_pmh),
-                      ("page_index_histories_from_pages", gen_pmw_hist), ("offset_index", gen_oix)):
+                      ("page_index_histories_from_pages", gen_pmw_hist), ("page_index_long_prefixes", gen_pm_prefix),
+                      ("offset_index", gen_oix)):
         cases = gen(tier, rng)
         run_cases(rep, drv, run_, cases, name, dist)
         rep.sample({"op": name, "case": cases[len(cases) // 3][0][:400]})
@@ -1091,7 +1197,7 @@ def replay(path):
             print(kind.upper() + ":", text)
         return 1 if res else 0
     if meta.get("kind") not in ("bld", "pw", "rd", "cmp", "ovl", "pm", "pmw", "pmh", "oix"):
-        meta = dict(meta, kind={"builder": "bld", "page_writer": "pw", "reader": "rd", "reader_long_stats": "rd", "page_index_from_pages": "pmw", "page_index_histories": "pmh", "page_index_histories_from_pages": "pmw", "offset_index": "oix"}.get(meta.get("kind"), case.split()[0]))
+        meta = dict(meta, kind={"builder": "bld", "page_writer": "pw", "reader": "rd", "reader_long_stats": "rd", "page_index_from_pages": "pmw", "page_index_histories": "pmh", "page_index_histories_from_pages": "pmw", "offset_index": "oix", "page_index_long_prefixes": "pmh"}.get(meta.get("kind"), case.split()[0]))
     res = judge(case, meta, out[0], mo[0] if mo else "RUNNER-ERROR none")
     for kind, text in res:
         print(kind.upper() + ":", text)
